@@ -27,7 +27,10 @@ type rangeCfg struct {
 func portCfgs(g *hx.Gen) rangeCfg {
 	B := basePort
 	k := 2 + g.Intn(8)
-	switch g.Intn(10) {
+	switch g.Intn(11) {
+	case 10:
+		// ports that can never be bound are dropped by NewManager: 0, negative, above 65535
+		return rangeCfg{"unbindable-dropped", []types.PortsRange{{Single: 70000}, {Start: B, End: B + 3}, {Start: -3, End: 0}, {Start: 65536, End: 65540}}}
 	case 0, 1, 2, 3:
 		return rangeCfg{"range", []types.PortsRange{{Start: B, End: B + k}}}
 	case 4:
@@ -250,7 +253,7 @@ func runPorts(cfg *hx.RunCfg) error {
 		}
 	}
 	cf.Tail = coqTail(map[string]int{"NB_RESERVED": 1, "NB_RANDOM_OK": 2, "NB_RANDOM_NONE": 3, "NB_SPEC_OK": 4, "NB_UNAVAIL": 5,
-		"NB_USED": 6, "NB_NOTALLOWED": 7, "NB_PORT0": 8, "NB_STEAL": 9, "NB_RELEASE": 10, "NB_RELEASE_NOOP": 11})
+		"NB_USED": 6, "NB_NOTALLOWED": 7, "NB_PORT0": 8, "NB_RESERVED_OWNED": 9, "NB_RELEASE": 10, "NB_RELEASE_NOOP": 11})
 	cfg.St["cases"] = len(cf.Cases)
 	cfg.St["distinct_nontrivial"] = nontrivial
 	cfg.St["samples"] = samples
